@@ -8,7 +8,8 @@ EXPLANATION = ('Proved (PyVC, unbounded): the greedy shortcut stores a solution 
 
 
 def units(tier):
-    return [u for u in sw.all_units() if any(k in u.name for k in ("_apply_pending", "queue_", "optimize", "fix_variable"))] + c05.all_units()
+    from contracts import c03
+    return [u for u in sw.all_units() if any(k in u.name for k in ("_apply_pending", "queue_", "optimize", "fix_variable"))] + c05.all_units() + c03.all_units()
 
 
 def bounded(tier, seed):
